@@ -278,12 +278,32 @@ func c21FilterNodes(p *Prog, r *Result, F *FuncNode) {
 		return ok && F.objOf(sel.X) == filt && sel.Sel.Name == field
 	}
 	F.inspectBody(func(n ast.Node) bool {
-		rs, ok := n.(*ast.RangeStmt)
-		if !ok || !isFilterField(rs.X, "Includes") || rs.Value == nil {
+		// the loop over the included names, in any of its forms, over NodeFilter.Includes or a local copy of it
+		el := elemLoopOf(F, n)
+		if el == nil {
 			return true
 		}
-		at = rs
-		name := F.objOf(rs.Value)
+		list := el.list
+		if o := F.objOf(list); o != nil {
+			if d := F.singleDef(o); d != nil {
+				list = d
+			}
+		}
+		if !isFilterField(list, "Includes") {
+			return true
+		}
+		at = n
+		isName := func(e ast.Expr) bool {
+			if el.elem != nil && F.objOf(e) == el.elem {
+				return true
+			}
+			if el.idx != nil {
+				ix, ok := unparen(e).(*ast.IndexExpr)
+				return ok && F.objOf(ix.Index) == el.idx && exprStr(unparen(ix.X)) == exprStr(unparen(el.list))
+			}
+			return false
+		}
+		rs := struct{ Body *ast.BlockStmt }{el.body}
 		var nodeObj types.Object
 		nApp := 0
 		why = ""
@@ -292,7 +312,7 @@ func c21FilterNodes(p *Prog, r *Result, F *FuncNode) {
 			case *ast.AssignStmt:
 				if len(s.Rhs) == 1 {
 					if c, ok := unparen(s.Rhs[0]).(*ast.CallExpr); ok {
-						if f := F.Callee(c); f != nil && objName(f) == "store.Store.GetNode" && len(c.Args) == 2 && F.objOf(c.Args[1]) == name {
+						if f := F.Callee(c); f != nil && objName(f) == "store.Store.GetNode" && len(c.Args) == 2 && isName(c.Args[1]) {
 							nodeObj = F.objOf(s.Lhs[0])
 							continue
 						}
@@ -301,6 +321,9 @@ func c21FilterNodes(p *Prog, r *Result, F *FuncNode) {
 							continue
 						}
 					}
+				}
+				if el.elem != nil && len(s.Lhs) == 1 && F.objOf(s.Lhs[0]) == el.elem {
+					continue // `name := includes[i]`
 				}
 				why = "unexpected assignment in the include loop: " + p.pos(s)
 			case *ast.IfStmt:
